@@ -338,7 +338,13 @@ func (r *runtime) InstantiateModule(
 	}
 
 	// Instantiate the module.
-	mod, err = r.store.Instantiate(ctx, code.module, name, sysCtx, code.typeIDs)
+	// The code closer (and the close notifier in ctx) are attached by the store before the module becomes visible to
+	// a concurrent Runtime.Close, so that anything afterward closes the compiled code when closing the module.
+	var codeCloser api.Closer
+	if code.closeWithModule {
+		codeCloser = code
+	}
+	mod, err = r.store.InstantiateWithCodeCloser(ctx, code.module, name, sysCtx, code.typeIDs, codeCloser)
 	if err != nil {
 		// If there was an error, don't leak the compiled module.
 		if code.closeWithModule {
@@ -348,16 +354,6 @@ func (r *runtime) InstantiateModule(
 	}
 
 	verifhook.Point("runtime.instantiate.after-store")
-	if closeNotifier, ok := ctx.Value(expctxkeys.CloseNotifierKey{}).(experimentalapi.CloseNotifier); ok {
-		mod.(*wasm.ModuleInstance).CloseNotifier = closeNotifier
-	}
-
-	// Attach the code closer so that anything afterward closes the compiled
-	// code when closing the module.
-	if code.closeWithModule {
-		mod.(*wasm.ModuleInstance).CodeCloser = code
-	}
-
 	// Now, invoke any start functions, failing at first error.
 	for _, fn := range config.startFunctions {
 		start := mod.ExportedFunction(fn)
